@@ -73,7 +73,7 @@ struct entry {
     std::string kinds;  /* per argument: a ndarray, i int, d double, s string */
     std::function<void(const nbstub_arg *, nbstub_arg *)> fn;
 };
-inline std::map<std::string, entry> &registry() {
+static std::map<std::string, entry> &registry() {  // internal linkage: one registry per shared object
     static std::map<std::string, entry> r;
     return r;
 }
